@@ -8,7 +8,7 @@
                       font size: % and em of the parent's computed font size (1c for a region), c and px of the cell /
                       pixel height; extent/origin: % of the root container, c/px per axis, em of the own font size;
                       line height, line padding, outline thickness, shadow offsets, ruby reserve: %, em of the own
-                      font size; padding: % of the region extent along the axis the writing mode gives;
+                      font size; padding: % of the region extent along the axis the writing mode (of the region) gives;
                       position: % of (100 - extent) from the left/top edge, (100 - extent) - offset from the
                       right/bottom edge, and it overrides origin; emphasis auto: filled sesame in vertical writing
                       modes OF THE REGION, filled circle otherwise; missing emphasis/outline/shadow colours = computed colour.
@@ -105,6 +105,12 @@ Fixpoint text_decoration (d : doc) (t : Q) (chain : list link) : option value :=
       end
   end.
 
+(* the values of tts:textDecoration in effect have the type of the property (model.py validates values in set_style,
+   add_animation_step and put_initial_value, so every constructible document is typed) *)
+Definition is_td_o (o : option value) : bool := match o with Some (VTextDec _ _ _) => true | Some _ => false | None => true end.
+Definition td_typed (d : doc) (t : Q) (chain : list link) : bool :=
+  is_td_o (sget (d_initials d) p_TextDecoration) && forallb (fun x => is_td_o (specified t x p_TextDecoration)) chain.
+
 Definition region_link (chain : list link) : option link := match rev chain with r :: _ => Some r | [] => None end.
 Definition vertical (v : option value) : bool :=
   match v with Some (VEnum w) => (w =? e_WritingModeType_tblr) || (w =? e_WritingModeType_tbrl) | _ => false end.
@@ -133,6 +139,11 @@ Fixpoint direction (d : doc) (t : Q) (chain : list link) : option value :=
           end
       end
   end.
+
+(* tts:writingMode applies to regions and is not inherited: the writing mode that governs an element is the
+   computed writing mode of its region (the last link of the chain) *)
+Definition writing_mode (d : doc) (t : Q) (chain : list link) : option value :=
+  match region_link chain with Some r => plain d t p_WritingMode [r] | None => None end.
 
 Definition ocolor (c : option Z) (d : doc) (t : Q) (chain : list link) : option Z :=
   match c with Some x => Some x | None => match plain d t p_Color chain with Some (VColor k) => Some k | _ => None end end.
@@ -168,7 +179,7 @@ Definition compute_font_relative (d : doc) (t : Q) (p : Z) (chain : list link) (
                  end in
       match f ss with Some ss' => Some (VShadow ss') | None => None end
   | VEmph style c pos =>
-      let wm := match region_link chain with Some r => plain d t p_WritingMode [r] | None => None end in
+      let wm := writing_mode d t chain in
       let style' := if style =? e_TextEmphasisType_Style_auto
                     then (if vertical wm then e_TextEmphasisType_Style_filled_sesame else e_TextEmphasisType_Style_filled_circle)
                     else style in
@@ -240,7 +251,7 @@ Definition padding (d : doc) (t : Q) (chain : list link) : option value :=
   | x :: _ =>
       match own_or_default d t p_Padding x, extent d t chain with
       | Some (VPad b e a s), Some (eh, ew) =>
-          let vert := vertical (plain d t p_WritingMode chain) in
+          let vert := vertical (writing_mode d t chain) in
           let fs := font_size d t chain in
           let block := if vert then (ew, cell_w d, pixel_w d) else (eh, cell_h d, pixel_h d) in
           let inline := if vert then (eh, cell_h d, pixel_h d) else (ew, cell_w d, pixel_w d) in
@@ -265,4 +276,46 @@ Definition computed_spec (d : doc) (t : Q) (chain : list link) (p : Z) : option 
   else if p =? p_Origin then match origin d t chain with Some (x, y) => Some (VCoord x y) | None => None end
   else if p =? p_Position then match origin d t chain with Some (x, y) => Some (VPos x e_PositionType_HEdge_left y e_PositionType_VEdge_top) | None => None end
   else if p =? p_Padding then padding d t chain
+  else if p =? p_WritingMode then writing_mode d t chain
   else plain d t p chain.
+
+(* ---- the statement about whole snapshots --------------------------------------------------------------------------------
+   The ancestor chains of a document: for a region r, the chain [r] and, for every element of the body, the element,
+   its ancestors and r, each with its interval (begin/end relative to the parent; the body is timed against the root).
+   Every element of a snapshot other than br and text nodes must carry, for every property applicable to its kind, the
+   computed value of the source element with its kind and xml:id along such a chain. *)
+Definition region_link_of (r : elem) : link := (eattrs r, resolve root_interval (e_begin (eattrs r)) (e_end (eattrs r))).
+Fixpoint chains_of (piv : interval) (acc : list link) (e : elem) : list (list link) :=
+  match e with
+  | Elem a cs =>
+      let iv := resolve piv (e_begin a) (e_end a) in
+      let acc' := (a, iv) :: acc in
+      acc' :: (fix go (l : list elem) : list (list link) := match l with [] => [] | c :: l' => chains_of iv acc' c ++ go l' end) cs
+  end.
+Definition the_default_region : elem := Elem (mkAttrs KRegion (Some default_region_id) None None None [] [] false [] []) [].
+Definition source_regions (d : doc) : list elem := match d_regions d with [] => [the_default_region] | l => l end.
+Definition doc_chains (d : doc) (r : elem) : list (list link) :=
+  [region_link_of r] :: match d_body d with Some b => chains_of root_interval [region_link_of r] b | None => [] end.
+
+(* content model facts: regions are regions, the body contains none, br and text nodes have no children *)
+Fixpoint content_wf (e : elem) : bool :=
+  match e with
+  | Elem a cs =>
+      negb (kind_eqb (e_kind a) KRegion) &&
+      match e_kind a with KBr | KText => match cs with [] => true | _ => false end | _ => true end &&
+      (fix go (l : list elem) : bool := match l with [] => true | c :: l' => content_wf c && go l' end) cs
+  end.
+Definition styles_wf (d : doc) : bool :=
+  forallb (fun r => kind_eqb (e_kind (eattrs r)) KRegion) (d_regions d) && match d_body d with Some b => content_wf b | None => true end.
+Definition doc_td_typed (d : doc) (t : Q) : Prop :=
+  forall r chain, In r (source_regions d) -> In chain (doc_chains d r) -> td_typed d t chain = true.
+
+Definition applicable_props (k : kind) : list Z :=
+  match assoc_z applicable_table (kind_num k) with Some l => l | None => [] end.
+Definition elem_resolved (d : doc) (t : Q) (a' : attrs) : Prop :=
+  match e_kind a' with
+  | KBr | KText => True
+  | _ => exists r x up, In r (source_regions d) /\ In (x :: up) (doc_chains d r) /\
+                        e_kind (fst x) = e_kind a' /\ e_id (fst x) = e_id a' /\
+                        forall p, In p (applicable_props (e_kind a')) -> sget (e_styles a') p = computed_spec d t (x :: up) p
+  end.
